@@ -30,7 +30,8 @@ RANGES = {"u8": (0, 255), "u16": (0, 65535), "u32": (0, 2**32 - 1), "u64": (0, 2
 
 KEYPOOL = {"String": ["a", "b", "k", "key", "", "01"], "u8": ["0", "1", "7", "255"], "i32": ["-1", "0", "5", "12"],
            "bool": ["true", "false"], "char": ["a", "b", "z"]}
-BADKEYS = {"u8": ["x", "256", "-1", "", "1x"], "i32": ["a", "9999999999", ""], "bool": ["yes", "True", ""], "char": ["ab", ""], "String": []}
+BADKEYS = {"u8": ["x", "256", "-1", "", "1x", "a\"b", "back\\slash"], "i32": ["a", "9999999999", "", "q\"q"], "bool": ["yes", "True", "", "t\"rue"],
+           "char": ["ab", "", "\"\""], "String": []}
 COLLIDE = {"u8": [("1", "01"), ("7", "+7")], "i32": [("5", "+5"), ("0", "-0")]}
 
 
@@ -39,11 +40,21 @@ def camel(ident):
     return parts[0].lower() + "".join(p[:1].upper() + p[1:].lower() for p in parts[1:]) if "_" in ident else ident[:1].lower() + ident[1:]
 
 
+def transposed(s):
+    """a near-miss one adjacent transposition away (what a did-you-mean suggestion is for)"""
+    if len(s) < 2:
+        return s + "q"
+    i = len(s) // 2 - 1 if len(s) > 2 else 0
+    t = s[:i] + s[i + 1] + s[i] + s[i + 2:]
+    return t if t != s else s + "q"
+
+
 def eff_key_guess(f, ra):
     """keys the generator tries for a field: the generator does NOT decide which is right (the spec does);
     it just offers the identifier, its camelCase / lowercase forms, the rename and near-misses."""
     ident = G.unraw(f["ident"])
-    cands = [ident, camel(ident), ident.lower(), ident.upper(), ident + "x", ident[:-1] if len(ident) > 1 else ident + "_"]
+    cands = [ident, camel(ident), ident.lower(), ident.upper(), ident + "x", ident[:-1] if len(ident) > 1 else ident + "_", transposed(ident),
+             transposed(camel(ident))]
     if f["rename"] is not None:
         cands.append(f["rename"])
         cands.append(f["rename"].upper())
@@ -57,7 +68,8 @@ class PayloadGen:
 
     # ---- valid-ish values with a per-node fault probability p --------------------------------
     def wrong(self, avoid):
-        pool = [vnull(), vbool(True), vint(3), vneg(-4), vfloat(1.5), vstr("x"), vseq([]), vseq([vint(1)]), vmap([]), vmap([("a", vint(1))])]
+        pool = [vnull(), vbool(True), vint(3), vneg(-4), vfloat(1.5), vstr("x"), vseq([]), vseq([vint(1)]), vmap([]), vmap([("a", vint(1))]),
+                vint(2**64 - 1), vseq([vint(2**63), vneg(-2**63)]), vstr("quo\"te")]
         pool = [v for v in pool if v["t"] not in avoid]
         return self.rng.choice(pool)
 
@@ -131,7 +143,10 @@ class PayloadGen:
             return vstr(r.choice(["", "a", "a,b", "a,,b", ",", "a,b,c"]))
         if k == "jvalue":
             return r.choice([vnull(), vint(1), vneg(-3), vfloat(0.5), vstr("s"), vseq([vint(1), vseq([])]), vmap([("a", vmap([("b", vnull())]))]),
-                             vint(2**64 - 1), vneg(-2**63)])
+                             vint(2**64 - 1), vneg(-2**63),
+                             vmap([("a", vfloat(float("inf"))), ("b", vint(1)), ("c", vfloat(float("nan")))]),
+                             vseq([vfloat(float("-inf")), vmap([("k", vfloat(float("nan"))), ("l", vseq([vfloat(float("inf"))]))])]),
+                             vmap([("m", vmap([("x", vfloat(float("nan")))])), ("n", vfloat(1.5))])])
         if k == "phantom":
             return r.choice([vnull(), vint(1), vseq([])])
         if k == "ref":
@@ -165,7 +180,7 @@ class PayloadGen:
             names = []
             for v in d["variants"]:
                 i = G.unraw(v["ident"])
-                names += [i, camel(i), i.lower(), i.upper()]
+                names += [i, camel(i), i.lower(), i.upper(), transposed(i), transposed(i.lower()), i + "s"]
                 if v["rename"] is not None: names.append(v["rename"])
             if r.random() < p * 0.3: return self.wrong({"str"})
             return vstr(r.choice(names + ["", "nope"]))
